@@ -161,7 +161,8 @@ def cosim_controller(cfg, seed, ncycles):
                     else "dfi.p%d.%s" % ((k - 4 * nbm) // 8, ["cs_n", "bank", "address", "cas_n", "ras_n", "we_n", "rddata_en", "wrdata_en"][(k - 4 * nbm) % 8]))
             mismatch = dict(cycle=i, signal=what, impl=a[k], model=b[k], inputs=lines[max(2, i - 3) + 0:i + 3])
             break
-    return dict(mismatch=mismatch, lines=lines, obs=obs[:n], cycles=n, nbm=nbm, wf2=wf2, psimax=psimax, rfwait=rfwait[:n])
+    return dict(mismatch=mismatch, lines=lines, obs=obs[:n], cycles=n, nbm=nbm, wf2=wf2, psimax=psimax, rfwait=rfwait[:n],
+                budget=hdr.get("budget") == "1")
 
 
 def mon_cfg_line(cfg):
